@@ -517,3 +517,175 @@ def e9b(ctx: Ctx):
             bad.append(f)
         if fs:
             ctx.ob(rname, not bad, "" if not bad else f"`{rname}` builds an expression that is emitted as {bad[:2]}: operator and operands are not in `left op right` order", file=PARSER_REL, line=1)
+
+
+_E17_POSITIVE = """
+def fold(frags):
+    cur = frags[-1]
+    op = cur.op.text(0)
+    i = len(frags) - 1
+    while i >= 1:
+        cur = Frag(frags[i - 1].op, Bin(frags[i - 1].e, op, cur.e))
+        i -= 1
+    return cur
+"""
+
+
+def _stale_projections(fn: ast.FunctionDef):
+    """(T, V, loop, use) where T = <projection of V> is computed before a loop that re-binds V, is never re-computed
+    inside it, and is handed to a constructor on every iteration."""
+    out = []
+    body = fn.body
+    for i, st in enumerate(body):
+        if not isinstance(st, (ast.While, ast.For)):
+            continue
+        assigned_in = {n.id for n in ast.walk(st) if isinstance(n, ast.Name) and isinstance(n.ctx, ast.Store)}
+        for prev in body[:i]:
+            if not (isinstance(prev, ast.Assign) and len(prev.targets) == 1 and isinstance(prev.targets[0], ast.Name)):
+                continue
+            T = prev.targets[0].id
+            v = prev.value
+            # a projection: attribute / method-call chain rooted at one name
+            root = v
+            depth = 0
+            while isinstance(root, (ast.Attribute, ast.Call, ast.Subscript)):
+                root = root.func if isinstance(root, ast.Call) else root.value
+                depth += 1
+            if not (isinstance(root, ast.Name) and depth >= 1 and any(isinstance(x, ast.Attribute) for x in ast.walk(v))):
+                continue
+            V = root.id
+            if V not in assigned_in or T in assigned_in:
+                continue
+            for c in ast.walk(st):
+                if isinstance(c, ast.Call) and isinstance(c.func, ast.Name) and c.func.id[:1].isupper() and any(isinstance(a, ast.Name) and a.id == T for a in c.args):
+                    out.append((T, V, st, c))
+                    break
+    return out
+
+
+@rule("E17", "FOLD-FRESH: a builder loop that re-binds its accumulator does not hand a value projected from the accumulator *before* the loop to every object it constructs", ["C01", "C03"], floor=1)
+def e17(ctx: Ctx):
+    py = pyfacts(ctx)
+    ctl = ast.parse(_E17_POSITIVE).body[0]
+    ctx.need(len(_stale_projections(ctl)) == 1, "positive-control", "the embedded example of a stale projection is no longer recognised")
+    n = 0
+    for rel, m in sorted(py.modules.items()):
+        if not rel.startswith("coco/b09/"):
+            continue
+        for fn in [x for x in ast.walk(m.tree) if isinstance(x, ast.FunctionDef)]:
+            loops = [s_ for s_ in fn.body if isinstance(s_, (ast.While, ast.For)) and any(isinstance(c, ast.Call) and isinstance(c.func, ast.Name) and c.func.id[:1].isupper() for c in ast.walk(s_))]
+            if not loops:
+                continue
+            n += 1
+            hits = _stale_projections(fn)
+            ok = not hits
+            msg = ""
+            if hits:
+                T, V, lp, use = hits[0]
+                msg = f"`{T}` is computed from `{V}` before the loop at line {lp.lineno}, `{V}` is re-bound on every iteration, yet `{unparse(use.func)}(...)` receives the same `{T}` each time: in a chain such as A-B+C-D every operator but one is replaced by the operator of the last fragment"
+            ctx.ob(f"{rel.split('/')[-1]}:{fn.name}", ok, msg, file=rel, line=fn.lineno, witness="" if ok else "10 Z=A-B+C-D")
+    ctx.units["builder_loops"] = n
+
+
+@rule("E18", "IMPLICIT-GOTO-CONTEXT: a jump that prints as a bare line number only ever stands directly after THEN of a one-line IF (anywhere else BASIC09 reads a bare number as a label)", ["C02", "C06", "C07"], floor=2)
+def e18(ctx: Ctx):
+    from .rules_abs import rule_values, walk
+
+    py = pyfacts(ctx)
+    vals = rule_values(ctx)
+    # where does an implicit jump print a bare number, and which class prints it inline after THEN?
+    g = py.resolve_method("BasicGoto", "basic09_text")
+    ctx.need(g is not None and ast_contains(g[1], "$$a if self._implicit else $$b"), "BasicGoto.basic09_text", "`<bare number> if self._implicit else GOTO <n>` not recognised")
+    inline = set()
+    for cls in py.classes:
+        r = py.resolve_method(cls, "basic09_text")
+        if r is not None and r[0].name == cls and ast_contains(r[1], "isinstance(self._statements, BasicGoto) and self._statements.implicit"):
+            inline.add(cls)
+    ctx.need(inline, "BasicIf.basic09_text", "no class prints an implicit jump inline after THEN")
+    seen: Set[str] = set()
+    n = 0
+
+    def gotos_of(fv, depth=0):
+        """BasicGoto objects a field can hold, looking through opaque operands (one rule value deep, repeatedly)."""
+        for a in alts_of(fv):
+            if isinstance(a, Obj) and a.cls == "BasicGoto":
+                yield a
+            elif isinstance(a, Operand) and depth < 4 and a.rule in vals:
+                yield from gotos_of(vals[a.rule], depth + 1)
+
+    for r, v in sorted(vals.items()):
+        for holder_obj, _w in walk(v):
+            if not isinstance(holder_obj, Obj) or holder_obj.cls == "BasicGoto":
+                continue
+            for f, fv in holder_obj.fields.items():
+                for x in gotos_of(fv):
+                    imp = x.fields.get("_implicit")
+                    gos = x.fields.get("_is_gosub")
+                    implicit = any(isinstance(a, Const) and a.value is True for a in alts_of(imp)) and not any(isinstance(a, Const) and a.value is True for a in alts_of(gos))
+                    n += implicit
+                    holder = holder_obj.cls
+                    where = f"{holder}.{f}"
+                    key = f"{r}:{where}"
+                    if key in seen:
+                        continue
+                    seen.add(key)
+                    ok = not implicit or (f == "_statements" and holder in inline and not any(holder != c and py.is_subclass(holder, c) for c in inline))
+                    ctx.ob(
+                        key,
+                        ok,
+                        "" if ok else f"`visit_{r}` puts a jump built with implicit=True into `{where}`; only {sorted(inline)} print it after THEN on the same line - here it is printed on a line of its own as a bare number, which BASIC09 takes for a line label: the jump is not taken",
+                        file=PARSER_REL,
+                        line=getattr(holder_obj, "line", 1) or 1,
+                        witness="" if ok else "10 IF A=1 THEN 100 ELSE IF A=2 THEN 200 ELSE 300",
+                    )
+    ctx.need(n >= 1, "implicit-goto", "the grammar builds no implicit jump at all (anchor lost)")
+
+
+@rule("A4", "POP-GUARDED: every pop() from a stack a pass keeps is guarded by an emptiness test of that stack that is evaluated for that very pop (no loop between guard and pop)", ["C15", "C02"], floor=2)
+def a4(ctx: Ctx):
+    py = pyfacts(ctx)
+    for rel, m in sorted(py.modules.items()):
+        if not rel.startswith("coco/b09/"):
+            continue
+        parents = {id(c): p for p in ast.walk(m.tree) for c in ast.iter_child_nodes(p)}
+        for fn in [x for x in ast.walk(m.tree) if isinstance(x, ast.FunctionDef)]:
+            k = 0
+            for c in ast.walk(fn):
+                if not (isinstance(c, ast.Call) and isinstance(c.func, ast.Attribute) and c.func.attr == "pop" and len(c.args) <= 1 and not c.keywords):
+                    continue
+                if c.args and not (isinstance(c.args[0], ast.Constant) and isinstance(c.args[0].value, int)):
+                    continue  # dict.pop(key)
+                stack = unparse(c.func.value)
+                k += 1
+                guarded = False
+                crossed_loop = None
+                x = c
+                while x is not fn:
+                    p = parents.get(id(x))
+                    if p is None:
+                        break
+                    if isinstance(p, (ast.For, ast.While)) and x in p.body:
+                        if isinstance(p, ast.While) and stack in unparse(p.test):
+                            guarded = True  # `while stack: stack.pop()`
+                            break
+                        crossed_loop = crossed_loop or p
+                    if isinstance(p, ast.If) and x in p.body:
+                        t = unparse(p.test).replace(" ", "")
+                        if t in (stack, f"len({stack})>0", f"len({stack})!=0", f"len({stack})>=1", f"{stack}!=[]") or re.fullmatch(rf"(.+and)?{re.escape(stack)}(and.+)?", t):
+                            guarded = crossed_loop is None
+                            if guarded:
+                                break
+                    if isinstance(p, ast.Try):
+                        guarded = any(h.type is None or "IndexError" in unparse(h.type) or unparse(h.type) == "Exception" for h in p.handlers) and x in p.body
+                        if guarded:
+                            break
+                    x = p
+                cls = next((ci.name for ci in m.classes.values() if fn in ci.methods.values()), "")
+                ctx.ob(
+                    f"{cls}.{fn.name}:pop#{k}",
+                    guarded,
+                    "" if guarded else f"`{unparse(c)}` is not protected by a test of `{stack}` evaluated for this pop" + (f" (the test is outside the loop at line {crossed_loop.lineno}, so only the first pop is covered)" if crossed_loop is not None else "") + ": a NEXT that names more variables than there are open FOR loops ends in IndexError instead of a conversion or a refusal",
+                    file=rel,
+                    line=c.lineno,
+                    witness="" if guarded else "10 FOR I=1 TO 3:NEXT I,J",
+                )
